@@ -218,20 +218,27 @@ structure PState where
   changed : List Id
   out : List Change
 
+/-- `precise_file_ids.add(result.parent_id[1])` (`None` is discarded later) -/
+def addParent (precise : List Id) (r : Change) : List Id :=
+  match r.tgt.bind (·.parent) with
+  | some p => insertNew precise p
+  | none => precise
+
+/-- `result.kind[0] == "directory" and result.kind[1] != "directory"` -/
+def stoppedDir (r : Change) : Bool :=
+  r.src.map (·.kind) == some Kind.dir && r.tgt.map (·.kind) != some Kind.dir
+
 /-- the `for file_id in current_ids` body -/
 def examine (src tgt : Tree) (st : PState) (i : Id) : PState :=
   match change src tgt i with
-  | none => st          -- id in neither tree: cannot be reached, see `examine` callers
+  | none => st          -- id in neither tree: not reachable (ids come from one of the trees)
   | some r =>
-    let precise := match r.tgt.bind (·.parent) with
-      | some p => insertNew st.precise p
-      | none => st.precise
     if r.isChanged then
-      let stoppedDir := r.src.map (·.kind) == some Kind.dir && r.tgt.map (·.kind) != some Kind.dir
-      { precise := if stoppedDir then unionNew precise (childrenOf src i) else precise,
+      { precise := if stoppedDir r then unionNew (addParent st.precise r) (childrenOf src i)
+                   else addParent st.precise r,
         changed := insertNew st.changed i,
         out := st.out ++ [r] }
-    else { st with precise := precise }
+    else { st with precise := addParent st.precise r }
 
 /-- the `while precise_file_ids` loop; `none` = fuel exhausted -/
 def preciseLoop (src tgt : Tree) : Nat → PState → Option (List Change)
